@@ -142,6 +142,73 @@ theorem linkOff_fails_every_user (s : St) (l k : Nat) (hon : s.linkOn l = true) 
   · intro _; exact ha
   · intro hnin; exact absurd (List.mem_range.mpr hk) hnin
 
+/-! ### killed_on_host_off
+Full-strength statement: `s.hostOn h → a < s.nActors → (s.actors a).host = h → ¬ (s.actors a).ended →
+((hostOff s h).actors a).wannadie = true`, and the on_exit callbacks of a dying actor get `failed = true`.
+Proved here (`_partial`): the two ends of that chain — `ActorImpl::exit` marks the actor and records the kill whatever
+the state, and `cleanup_from_self` hands `wannadie()` to the on_exit callbacks.  Missing: that nothing executed between
+the two (the `finish`/`cancel` calls made for the other actors of the host) resets the flag — true by inspection (no
+function of the model writes `wannadie := false`), not yet a Lean theorem; the monitor checks it on every run
+(every actor of a host turned off logs `exit 1` at that date). -/
+theorem killed_on_host_off_partial (s : St) (a : Nat) :
+    Obs.kill a ∈ (actorExit s a).obs ∧
+    (∀ t : St, (t.actors a).wannadie = true → Obs.exit a true ∈ (actorEnd t a).obs) := by
+  constructor
+  · simp [actorExit, St.emit]
+  · intro t ht
+    unfold actorEnd
+    simp only []
+    -- the observation is emitted first; the cancellations that follow only append
+    have mono : ∀ (L : List Nat) (u : St) (o : Obs), o ∈ u.obs → o ∈ (L.foldl cancel u).obs := by
+      intro L
+      induction L with
+      | nil => intro u o h; exact h
+      | cons x xs ih =>
+        intro u o h
+        simp only [List.foldl_cons]
+        apply ih
+        unfold cancel
+        simp only []
+        (repeat' split) <;>
+          simp_all [failAction, St.setAct, St.setActor, St.crash, eraseActivity, mboxRemove] <;>
+          (repeat' split) <;> simp_all [St.setAct, St.setActor, St.crash]
+    have := mono (t.actors a).activities (t.emit (.exit a (t.actors a).wannadie)) (.exit a true)
+      (by simp [St.emit, ht])
+    simpa [St.setActor, St.emit] using this
+
+/-! ### no_orphan_block
+Full-strength statement: in every reachable state with an empty failed-action set, every live blocked actor waits
+only on `Live` activities (unmatched, or running with a started action all of whose links are on).
+Proved here (`_partial`): the local step — once `finish` ran on an activity, no simcall stays registered on it, so
+nobody can be left waiting for an answer from an activity that already ended.  Missing: the global invariant over all
+events (that every activity losing its last completion event is handed to `finish`); it is checked by the monitor
+(deadlock report: nobody blocked on anything but an unmatched communication).  Known exclusions that the full
+statement would need: detached sends whose sender's host failed (reported at the completion date, not at the failure
+date) and the abort below. -/
+theorem no_orphan_block_partial_comm (s : St) (k : Nat) : ((finishComm s k).acts k).simcalls = [] := by
+  unfold finishComm
+  simp only []
+  have step : ∀ (t : St) (a : Nat), (t.acts k).simcalls = [] → ((commAnswerOne k t a).acts k).simcalls = [] := by
+    intro t a h
+    have h1 : ((unregisterAll t a).acts k).simcalls = [] := by
+      simp only [unregisterAll]; split <;> simp [h]
+    have h2 : ((answerTarget (unregisterAll t a) a).1.acts k).simcalls = [] := by rw [answerTarget_acts]; exact h1
+    unfold commAnswerOne
+    simp only []
+    split
+    · unfold commAfter
+      simp only []
+      (repeat' split) <;> simp_all [St.setActor, St.setAct, St.emit, St.crash, upd, deliver, eraseActivity] <;>
+        (repeat' split) <;> simp_all [St.setActor, St.setAct, St.emit, St.crash, upd, deliver, eraseActivity]
+    · exact h2
+  have fold : ∀ (L : List Nat) (t : St), (t.acts k).simcalls = [] → ((L.foldl (commAnswerOne k) t).acts k).simcalls = [] := by
+    intro L
+    induction L with
+    | nil => intro t h; exact h
+    | cons x xs ih => intro t h; exact ih _ (step t x h)
+  apply fold
+  simp [St.setAct]
+
 /-! ### the abort: CommImpl::start asserts that both endpoint hosts are on
 Full-strength statement (FALSE on the current code): `∀ es, (run (init hosts route) es).crashed = false` — the kernel
 never aborts whatever the sequence of actor operations and failures. -/
